@@ -18,7 +18,7 @@ from ..core.astutil import u, call_name, kwarg, walk_local
 from ..core.loader import AnchorError, Undecided
 from ..core.report import Ctx
 from .c22 import (KI, Arr, Int, Mat, Mask, Tup, GridV, Opaque, ListV, DictV, E, S, n_of, size_of, fmt_space, fmt_val, fmt_ident,
-                  canon_space, count_atoms, view_of, _reporter, guarded, _z, flat_prod, SPACE_SIZES, BOT, _plain_defs, _resolve, _to_sym)
+                  canon_space, count_atoms, view_of, _reporter, guarded, MODS, _z, flat_prod, SPACE_SIZES, BOT, _plain_defs, _resolve, _to_sym)
 
 REF = "src/porepy/grids/refinement.py"
 EXT = "src/porepy/grids/grid_extrusion.py"
@@ -39,14 +39,18 @@ META = {
         "slot (nn*(L+1), nf*L + nc*(L+1), nc*L) and are flattened in the same layout; gathers of the old grid's arrays use indices of the "
         "gathered entity kind; the node array is stacked layer-major; cell_map[c] / face_map[f] are arange(entity, count*L, count) of the "
         "same entity kind (layer-major, L entries); tag arrays are L copies of the old face tags first, then the horizontal faces, with "
-        "total length nf*L + nc*(L+1), node tags (L+1) copies. "
+        "total length nf*L + nc*(L+1), node tags (L+1) copies; the signs stored in the new cell-face matrix depend on the old grid's "
+        "cell_faces signs (sibling agreement with _extrude_2d), not on constants only. "
         "R3 refine_grid_1d / remesh_1d: new node coordinates are combinations of the two end nodes of one cell (one pointer window) / of "
         "the two boundary nodes whose weights sum to one identically and stay in [0, 1] (sympy on the extracted formula); the number of "
-        "inserted nodes per cell, the node counter increment, the slice width and the index template all equal ratio-1. "
+        "inserted nodes per cell, the node counter increment and the slice width all equal ratio-1; role agreement: the test on entry k of "
+        "the window's first-occurrence flags guards (adds / looks up) the window's node k only. "
         "R4 structured_refinement: the points tested against a coarse cell and the ids recorded for it are selected from the same pointer "
         "array with the same mask; the pointer array is then restricted with the complement of that mask (each fine cell is recorded "
         "at most once); exactly one column pointer is appended per coarse cell, advanced by the number of ids appended; the matrix is "
-        "compressed by columns with (indices = fine ids, pointer per coarse cell), i.e. rows fine x columns coarse as documented. "
+        "compressed by columns with (indices = fine ids, pointer per coarse cell), i.e. rows fine x columns coarse as documented; ids and counts "
+        "may be collected in arrays (np.append, running sum) or lists (joined / np.cumsum from [0]); frame typing: within each pre-processing "
+        "arm the coarse nodes and the fine cell centres are re-assigned with the SAME map and slice (R vs R.T are different frames). "
         "Not decided: measures, containment and validity of the produced grids (values of recomputed geometry), orientation/sign "
         "conventions of the extruded faces, point-in-cell tests, tolerance-based tag transfer of remesh_1d, extrude_mdg."),
     "rule_text": "one obligation per typed offset / gather / constructor slot / pairing / stacked row / map store / tag array / extracted identity",
@@ -310,6 +314,74 @@ def _vk_join(g: str):
     return join
 
 
+COUNT_ATTRS = {"size", "shape", "nnz", "num_cells", "num_faces", "num_nodes", "dim", "ndim"}
+
+
+def _value_slice(fn: ast.AST, expr: ast.expr) -> list:
+    """AST nodes the VALUES of expr may depend on (flow-insensitive backward slice over the assignments of the function;
+    sub-expressions that only contribute a count - x.size, x.shape, len(x), g.num_cells - are not followed)"""
+    out, seen, todo = [], set(), [expr]
+
+    def walk_values(e):
+        stack = [e]
+        while stack:
+            n = stack.pop()
+            if isinstance(n, ast.Attribute) and n.attr in COUNT_ATTRS:
+                continue
+            if isinstance(n, ast.Call) and call_name(n) == "len":
+                continue
+            yield n
+            stack.extend(ast.iter_child_nodes(n))
+    while todo:
+        e = todo.pop()
+        for n in walk_values(e):
+            out.append(n)
+            if isinstance(n, ast.Name) and n.id not in seen:
+                seen.add(n.id)
+                for st in ast.walk(fn):
+                    if isinstance(st, ast.Assign):
+                        for t in st.targets:
+                            names = [x for x in ast.walk(t) if isinstance(x, ast.Name)]
+                            base = t
+                            while isinstance(base, ast.Subscript):
+                                base = base.value
+                            if (isinstance(base, ast.Name) and base.id == n.id) or (isinstance(t, (ast.Tuple, ast.List)) and any(x.id == n.id for x in names)):
+                                todo.append(st.value)
+                    elif isinstance(st, ast.AugAssign):
+                        base = st.target
+                        while isinstance(base, ast.Subscript):
+                            base = base.value
+                        if isinstance(base, ast.Name) and base.id == n.id:
+                            todo.append(st.value)
+    return out
+
+
+def _check_inherited_orientation(ctx: Ctx, mod, q: str, fn: ast.FunctionDef, ki: KI, g: str, cf_mat) -> None:
+    """the signs stored in the new cell-face matrix must depend on the old grid (its cell_faces signs or its geometry)"""
+    data_expr = None
+    for c, fmt, m, facts in ki.ctors:
+        if m is not None and cf_mat is not None and (m.mid == cf_mat.mid or ("conv", m.mid, "csc") == cf_mat.mid or ("conv", m.mid, "csr") == cf_mat.mid):
+            a0 = c.args[0] if c.args else None
+            if isinstance(a0, ast.Tuple) and a0.elts:
+                data_expr = a0.elts[0]
+    if data_expr is None:
+        raise Undecided(f"{EXT}:{q}: the data argument of the new cell-face matrix was not found")
+    nodes = _value_slice(fn, data_expr)
+    attrs = {n.attr for n in nodes if isinstance(n, ast.Attribute) and isinstance(n.value, ast.Name) and n.value.id == g}
+    reads_signs = any(isinstance(n, ast.Attribute) and n.attr == "data" and isinstance(n.value, ast.Attribute) and n.value.attr == "cell_faces"
+                      and isinstance(n.value.value, ast.Name) and n.value.value.id == g for n in nodes) or \
+        any(isinstance(n, ast.Call) and call_name(n) in ("sparse_array_to_row_col_data", "find") and n.args
+            and u(n.args[0]) == f"{g}.cell_faces" for n in nodes)
+    if not reads_signs and attrs - COUNT_ATTRS:
+        raise Undecided(f"{EXT}:{q}: the signs of the new cell-face matrix depend on {sorted(attrs - COUNT_ATTRS)} of the old grid in a way that is not interpreted")
+    ctx.check("R2", reads_signs, mod, q, data_expr,
+              f"the signs of the new cell-face matrix (`{u(data_expr)[:50]}`) are built from constants only: they depend on neither the signs of {g}.cell_faces nor "
+              f"the geometry of {g}, i.e. the orientation of the vertical faces is fixed by their storage position in the old cell; for an old grid whose cells "
+              f"list their faces in another order the copies of one face get the same sign in both neighbours (nodes x=[0,2,1], cells (n0,n2),(n2,n1), "
+              f"cell_faces -1 left/+1 right, z=[0,1,3]: ValueError 'Cell faces are not consistently oriented'); the 2-d sibling copies {g}.cell_faces.data",
+              construct="signs of the extruded vertical faces are inherited from the old cell_faces")
+
+
 def _extrude_ki(ctx: Ctx, mod, q: str, fn: ast.FunctionDef, g: str) -> KI:
     _set_new_sizes(g)
     ki = KI(fn, f"{EXT}:{q}", _reporter(ctx, "R2", mod, q), offset_hook=extrusion_hook(g))
@@ -352,6 +424,7 @@ def rule_extrusion(ctx: Ctx, mod) -> None:
                 raise Undecided(f"{EXT}:{q}: the {slot} argument of pp.Grid is typed {fmt_val(m)}")
             ctx.check("R2", got[0] in (rk, None) and got[1] in (ck, None), mod, q, c,
                       f"the {slot} slot of pp.Grid receives a matrix typed {got}", construct=f"Grid({slot}=...) is the {rk} x {ck} incidence")
+        _check_inherited_orientation(ctx, mod, q, fn, ki, g, cfm)
         nm = _check_maps(ctx, mod, q, ki, g)
         if nm < 2:
             raise Undecided(f"{EXT}:{q}: cell and face maps not found after inlining _create_mappings ({nm})")
@@ -692,6 +765,51 @@ def rule_convex(ctx: Ctx, mod) -> None:
     ctx.check("R3", same and d == 1, mod, q, pair[0],
               f"the two end nodes must be the entries of ONE cell's window M.indices[M.indptr[c]:M.indptr[c+1]] of one matrix (found indices of `{u(src.value)}`, "
               f"bounds `{u(lo)}` .. `{u(hi)}`)", construct="end nodes come from one cell's pointer window")
+    # role agreement: a test on entry k of the first-occurrence flags of this window guards the window's node k only
+    roles = [getattr(t, "id", None) for t in pair[0].targets[0].elts]
+    win_txt = u(pair[0].value.slice)
+    flags = {d.targets[0].id for d in ast.walk(fn) if isinstance(d, ast.Assign) and isinstance(d.targets[0], ast.Name)
+             and isinstance(d.value, ast.Subscript) and u(d.value.slice) == win_txt and d is not pair[0]
+             and not (isinstance(d.value.value, ast.Attribute) and d.value.value.attr == "indices")}
+    unpacked = {}
+    for d in ast.walk(fn):
+        if isinstance(d, ast.Assign) and isinstance(d.targets[0], ast.Tuple) and len(d.targets[0].elts) == 2 and d is not pair[0] \
+                and isinstance(d.value, ast.Subscript) and u(d.value.slice) == win_txt and all(isinstance(t, ast.Name) for t in d.targets[0].elts):
+            unpacked[d.targets[0].elts[0].id], unpacked[d.targets[0].elts[1].id] = 0, 1
+
+    def role_index(test: ast.expr) -> Optional[int]:
+        while isinstance(test, ast.UnaryOp) and isinstance(test.op, ast.Not):
+            test = test.operand
+        if isinstance(test, ast.Name) and test.id in unpacked:
+            return unpacked[test.id]
+        if isinstance(test, ast.Subscript) and isinstance(test.value, ast.Name) and test.value.id in flags:
+            k = test.slice
+            kv = k.value if isinstance(k, ast.Constant) else (-k.operand.value if isinstance(k, ast.UnaryOp) and isinstance(k.op, ast.USub)
+                                                              and isinstance(k.operand, ast.Constant) else None)
+            if kv not in (0, 1, -1, -2):
+                raise Undecided(f"{REF}:{q}: flag test `{u(test)}` does not address one end of the window")
+            return 0 if kv in (0, -2) else 1
+        return None
+    n_role = 0
+    for iff in ast.walk(fn):
+        if not isinstance(iff, ast.If):
+            continue
+        ri = role_index(iff.test)
+        if ri is None:
+            continue
+        role, other = roles[ri], roles[1 - ri]
+        used = [n for blk in (iff.body, iff.orelse) for st_ in blk for n in ast.walk(st_) if isinstance(n, ast.Name) and n.id in roles]
+        if not used:
+            continue
+        n_role += 1
+        wrong = [n for n in used if n.id == other]
+        ctx.check("R3", not wrong, mod, q, iff,
+                  f"`if {u(iff.test)}` decides whether node `{role}` of the cell (entry {ri} of its window) is new or already present; both arms must add / look up "
+                  f"`{role}`, but `{other}` is used" + (f" (line {wrong[0].lineno})" if wrong else "") + ": the refined cell is then closed with the wrong old node "
+                  f"whenever that node was created by an earlier cell (e.g. nodes x=[0,2,1], cells (0,2),(2,1))",
+                  construct=f"first-occurrence test of window entry {ri} guards that node only")
+    if n_role < 2:
+        raise Undecided(f"{REF}:{q}: the first-occurrence tests of the two end nodes were not recognised ({n_role})")
     # counts: all equal ratio - 1
     R = sp.Symbol(rname)
     atoms = {rname: R}
@@ -812,49 +930,99 @@ def rule_structured_refinement(ctx: Ctx, mod) -> None:
         raise und(f"initial pointer arange({n0}) not recognised")
     chk(n0 == f"{fine}.num_cells", pdef[0], f"the pointer of untested cells must start as arange({fine}.num_cells) - the cells of the FINE grid; found arange({n0})",
         "untested pointer starts with all fine cells")
-    # appends
-    apps = [s for s in loop.body if isinstance(s, ast.Assign) and isinstance(s.targets[0], ast.Name) and isinstance(s.value, ast.Call)
-            and call_name(s.value) in ("append", "hstack", "concatenate") and s.targets[0].id in {n.id for n in ast.walk(s.value) if isinstance(n, ast.Name)}]
-    inner = [s for s in ast.walk(loop) if s not in apps and s not in loop.body and isinstance(s, ast.Assign) and isinstance(s.targets[0], ast.Name)
-             and isinstance(s.value, ast.Call) and call_name(s.value) in ("append", "hstack", "concatenate")
-             and s.targets[0].id in {n.id for n in ast.walk(s.value) if isinstance(n, ast.Name)}]
+    # collectors: arrays grown by np.append/hstack/concatenate, or lists grown by .append (joined after the loop)
+    pm = {}
+    for par in ast.walk(fn):
+        for fld in ("body", "orelse", "finalbody"):
+            blk = getattr(par, fld, None)
+            if isinstance(blk, list):
+                for st in blk:
+                    pm[id(st)] = (id(par), fld)
+    coll: dict[str, tuple] = {}          # name -> (statement, appended expression, kind)
+    for st in ast.walk(loop):
+        if isinstance(st, ast.Assign) and isinstance(st.targets[0], ast.Name) and isinstance(st.value, ast.Call) \
+                and call_name(st.value) in ("append", "hstack", "concatenate") and st.targets[0].id in {n.id for n in ast.walk(st.value) if isinstance(n, ast.Name)}:
+            v = st.value
+            parts = list(v.args[0].elts) if v.args and isinstance(v.args[0], (ast.Tuple, ast.List)) else list(v.args[:2])
+            rest = [x for x in parts if not (isinstance(x, ast.Name) and x.id == st.targets[0].id)]
+            if len(rest) != 1 or st.targets[0].id in coll:
+                raise und(f"append `{u(st)[:70]}` not recognised")
+            coll[st.targets[0].id] = (st, rest[0], "array")
+        elif isinstance(st, ast.Expr) and isinstance(st.value, ast.Call) and isinstance(st.value.func, ast.Attribute) and st.value.func.attr == "append" \
+                and isinstance(st.value.func.value, ast.Name) and len(st.value.args) == 1:
+            nm = st.value.func.value.id
+            if nm in coll:
+                raise und(f"list `{nm}` is appended more than once per iteration")
+            coll[nm] = (st, st.value.args[0], "list")
     ctors = [c for c in ast.walk(fn) if isinstance(c, ast.Call) and call_name(c) in ("csc_matrix", "csr_matrix") and c.args
              and isinstance(_resolve(fn, c.args[0]), ast.Tuple) and len(_resolve(fn, c.args[0]).elts) == 3]
     if len(ctors) != 1:
         raise und("constructor of the mapping not found")
     c = ctors[0]
     _d, i_, p_ = _resolve(fn, c.args[0]).elts
-    if not (isinstance(i_, ast.Name) and isinstance(p_, ast.Name)):
-        raise und("indices / pointer of the mapping are not plain names")
-    by_t = {s.targets[0].id: s for s in apps + inner}
-    if i_.id not in by_t or p_.id not in by_t:
-        # roles swapped in the constructor?
-        raise und("the arrays given to the constructor are not the ones appended in the loop")
-    # which appended array collects ids (value derived from the mask through the pointer), which counts
-    def appended(stmt):
-        v = stmt.value
-        parts = list(v.args[0].elts) if v.args and isinstance(v.args[0], (ast.Tuple, ast.List)) else list(v.args[:2])
-        rest = [p_x for p_x in parts if not (isinstance(p_x, ast.Name) and p_x.id == stmt.targets[0].id)]
-        return rest[0] if len(rest) == 1 else None
-    roles = {}
-    for nm, stmt in by_t.items():
-        a_ = appended(stmt)
-        if a_ is None:
-            raise und(f"append `{u(stmt)[:70]}` not recognised")
-        roles[nm] = "count" if (isinstance(a_, ast.BinOp) or (isinstance(a_, ast.Call) and call_name(a_) == "len")) else "ids"
-    ids_arr = [nm for nm, r_ in roles.items() if r_ == "ids"]
-    cnt_arr = [nm for nm, r_ in roles.items() if r_ == "count"]
-    if len(ids_arr) != 1 or len(cnt_arr) != 1:
-        raise und("expected one array collecting ids and one collecting the running count")
-    IND, PTR = ids_arr[0], cnt_arr[0]
-    chk(call_name(c) == "csc_matrix" and i_.id == IND and p_.id == PTR, c,
-        f"the mapping is documented as rows = fine cells, columns = coarse cells: column-compressed with indices = fine ids `{IND}` and one pointer entry per "
-        f"coarse cell `{PTR}` (found {call_name(c)}(( ., {i_.id}, {p_.id})))", "mapping is csc(data, fine ids, pointer per coarse cell)")
-    chk(all(by_t[n] in apps for n in (IND, PTR)), by_t[PTR],
-        "ids and pointer are appended once per iteration of the loop over coarse cells (not inside a dimension arm)", "one pointer entry per coarse cell")
-    xa = appended(by_t[IND])
-    if not isinstance(xa, ast.Name):
-        raise und(f"appended ids `{u(xa)}` are not a plain name")
+
+    def collector_of(e: ast.expr):
+        """(collector name, how it is turned into the array): the array itself, concatenation of a list, running sum of a list"""
+        e = _resolve(fn, e) if not (isinstance(e, ast.Name) and e.id in coll) else e
+        if isinstance(e, ast.Name) and e.id in coll and coll[e.id][2] == "array":
+            return e.id, "self"
+        if isinstance(e, ast.Call) and e.args and isinstance(e.args[0], ast.Name) and e.args[0].id in coll and coll[e.args[0].id][2] == "list":
+            if call_name(e) in ("concatenate", "hstack"):
+                return e.args[0].id, "joined"
+            if call_name(e) == "cumsum":
+                return e.args[0].id, "cumsum"
+        return None, None
+    ci_, cp_ = collector_of(i_), collector_of(p_)
+    if ci_[0] is None or cp_[0] is None:
+        raise und("the arrays given to the constructor could not be traced to what is collected in the loop")
+
+    def size_target(o: ast.expr) -> Optional[str]:
+        if isinstance(o, ast.Attribute) and o.attr == "size" and isinstance(o.value, ast.Name):
+            return o.value.id
+        if isinstance(o, ast.Call) and call_name(o) == "len" and o.args and isinstance(o.args[0], ast.Name):
+            return o.args[0].id
+        if isinstance(o, ast.Subscript) and isinstance(o.value, ast.Attribute) and o.value.attr == "shape" and isinstance(o.value.value, ast.Name):
+            return o.value.value.id
+        return None
+    # role of each collector: "ids" (a name derived from the mask) or "count" (a size, possibly added to the last pointer entry)
+    role = {}
+    sized_of = {}
+    for nm, (st, ap, kind) in coll.items():
+        if isinstance(ap, ast.BinOp) and isinstance(ap.op, ast.Add):
+            terms = [ap.left, ap.right]
+            last = [t for t in terms if u(t) == f"{nm}[-1]"]
+            oth = [t for t in terms if u(t) != f"{nm}[-1]"]
+            if len(last) == 1 and len(oth) == 1 and size_target(oth[0]) is not None:
+                role[nm], sized_of[nm] = "running", size_target(oth[0])
+                continue
+            raise und(f"pointer increment `{u(ap)}` not recognised")
+        if size_target(ap) is not None:
+            role[nm], sized_of[nm] = "count", size_target(ap)
+        elif isinstance(ap, ast.Name):
+            role[nm] = "ids"
+    ids_c = [nm for nm, r_ in role.items() if r_ == "ids" and nm in (ci_[0], cp_[0])]
+    cnt_c = [nm for nm, r_ in role.items() if r_ in ("running", "count") and nm in (ci_[0], cp_[0])]
+    if len(ids_c) != 1 or len(cnt_c) != 1:
+        raise und("expected one collector of ids and one of counts among the arrays given to the constructor")
+    IND, PTR = ids_c[0], cnt_c[0]
+    ok_ptr_form = (role[PTR] == "running" and cp_ == (PTR, "self")) or (role[PTR] == "count" and cp_ == (PTR, "cumsum")) or ci_[0] == PTR
+    if not ok_ptr_form and cp_[0] == PTR:
+        raise und(f"the counts in `{PTR}` are neither a running sum nor summed with np.cumsum")
+    if role[PTR] == "count" and cp_ == (PTR, "cumsum"):
+        init = [d for d in _plain_defs(fn, PTR) + [x for x in ast.walk(fn) if isinstance(x, ast.AnnAssign) and isinstance(x.target, ast.Name)
+                                                   and x.target.id == PTR and x.value is not None]]
+        iv0 = init[0].value if len(init) == 1 else None
+        if not (isinstance(iv0, ast.List) and len(iv0.elts) == 1 and isinstance(iv0.elts[0], ast.Constant)):
+            raise und(f"initial value of the count list `{PTR}` not recognised")
+        chk(iv0.elts[0].value == 0, init[0], f"the column pointer np.cumsum({PTR}) must start with 0: the list must be initialised as [0] (found `{u(iv0)}`)",
+            "column pointer starts at zero")
+    chk(call_name(c) == "csc_matrix" and ci_[0] == IND and cp_[0] == PTR, c,
+        f"the mapping is documented as rows = fine cells, columns = coarse cells: column-compressed with indices = the collected fine ids `{IND}` and one pointer "
+        f"entry per coarse cell from `{PTR}` (found {call_name(c)}(( ., {u(i_)[:30]}, {u(p_)[:30]})))", "mapping is csc(data, fine ids, pointer per coarse cell)")
+    chk(pm.get(id(coll[IND][0])) == pm.get(id(coll[PTR][0])), coll[PTR][0],
+        "ids and count are collected together, once per coarse cell (same block of the loop, not inside different dimension arms)",
+        "one pointer entry per coarse cell")
+    xa = coll[IND][1]
     X = xa.id
     ids = _loop_defs(loop, X)
     if len(ids) != 1:
@@ -872,39 +1040,83 @@ def rule_structured_refinement(ctx: Ctx, mod) -> None:
         f"positions within the not-yet-assigned cells (or a different selection), correct only for the first coarse cell", "recorded ids = pointer[mask]")
     chk(order[id(ids[0])] < order[id(rs)], rs,
         f"the ids must be read before the pointer is restricted (afterwards `{M}` no longer matches `{P}`)", "ids read before the pointer is restricted")
-    # pointer increment
-    pa = appended(by_t[PTR])
-    terms = [pa.left, pa.right] if isinstance(pa, ast.BinOp) and isinstance(pa.op, ast.Add) else None
-    if terms is None:
-        raise und(f"pointer increment `{u(pa)}` not recognised")
-    last = [t for t in terms if u(t) == f"{PTR}[-1]"]
-    other = [t for t in terms if u(t) != f"{PTR}[-1]"]
-    if len(last) != 1 or len(other) != 1:
-        raise und(f"pointer increment `{u(pa)}` not recognised")
-    o = other[0]
-    sized = o.value.id if isinstance(o, ast.Attribute) and o.attr == "size" and isinstance(o.value, ast.Name) else (
-        o.args[0].id if isinstance(o, ast.Call) and call_name(o) == "len" and o.args and isinstance(o.args[0], ast.Name) else (
-            o.value.value.id if isinstance(o, ast.Subscript) and isinstance(o.value, ast.Attribute) and o.value.attr == "shape" and isinstance(o.value.value, ast.Name) else None))
-    if sized is None:
-        raise und(f"pointer increment `{u(o)}` not recognised")
-    chk(sized == X, by_t[PTR], f"per coarse cell the column pointer must grow by the number of ids appended ({X}); it grows by the size of `{sized}`",
+    chk(sized_of[PTR] == X, coll[PTR][0],
+        f"per coarse cell the column pointer must grow by the number of ids collected ({X}); it grows by the size of `{sized_of[PTR]}`",
         "column pointer advances by the number of appended ids")
     # tested points gathered with the pointer
     n_arm = 0
     for md in mdefs:
         n_arm += 1
-        names = {n.id for n in ast.walk(md.value) if isinstance(n, ast.Name)}
-        gathers = []
-        for nm in names:
+        subs = [n for n in ast.walk(md.value) if isinstance(n, ast.Subscript) and isinstance(n.value, ast.Name)]
+        for nm in {n.id for n in ast.walk(md.value) if isinstance(n, ast.Name)}:
             for d in _loop_defs(loop, nm):
                 if isinstance(d.value, ast.Subscript) and isinstance(d.value.value, ast.Name):
-                    gathers.append(d)
-        if not gathers:
+                    subs.append(d.value)
+        if not subs:
             raise und(f"the points tested by `{u(md)[:60]}` could not be traced to a gather")
-        with_p = [d for d in gathers if P in {n.id for n in ast.walk(d.value.slice) if isinstance(n, ast.Name)}]
+        with_p = [d for d in subs if P in {n.id for n in ast.walk(d.slice) if isinstance(n, ast.Name)}]
         chk(bool(with_p), md,
             f"the mask `{M}` must be computed from points gathered with the current pointer `{P}` (so that it can select from `{P}`); "
-            f"`{u(gathers[0])[:70]}` gathers without it", f"mask arm {n_arm}: tested points are gathered with the pointer array")
+            f"`{u(md)[:70]}` tests points gathered without it", f"mask arm {n_arm}: tested points are gathered with the pointer array")
+    # both point sets of a point-in-cell test live in one frame
+    CA = {d.targets[0].id for d in ast.walk(fn) if isinstance(d, ast.Assign) and isinstance(d.targets[0], ast.Name)
+          and any(isinstance(n, ast.Attribute) and n.attr == "nodes" and u(n.value) == coarse for n in ast.walk(d.value))
+          and not any(isinstance(n, ast.Call) and call_name(n) not in ("copy", "asarray", "array") for n in ast.walk(d.value))}
+    FA = {d.targets[0].id for d in ast.walk(fn) if isinstance(d, ast.Assign) and isinstance(d.targets[0], ast.Name)
+          and any(isinstance(n, ast.Attribute) and n.attr == "cell_centers" and u(n.value) == fine for n in ast.walk(d.value))
+          and not any(isinstance(n, ast.Call) and call_name(n) not in ("copy", "asarray", "array") for n in ast.walk(d.value))}
+
+    def frame_of(v: ast.expr, tgt: str):
+        """(matrix name, transposed?, trailing slice text) when v is `M applied to tgt` (np.dot(M, tgt) | M.dot(tgt) | M @ tgt)[slice]"""
+        sl = ""
+        if isinstance(v, ast.Subscript):
+            v, sl = v.value, u(v.slice)
+        Mx = None
+        if isinstance(v, ast.Call) and call_name(v) in ("dot", "matmul") and len(v.args) == 2 and isinstance(v.func, ast.Attribute) \
+                and isinstance(v.func.value, ast.Name) and v.func.value.id in ("np", "numpy"):
+            Mx, X_ = v.args
+        elif isinstance(v, ast.Call) and call_name(v) == "dot" and len(v.args) == 1 and isinstance(v.func, ast.Attribute):
+            Mx, X_ = v.func.value, v.args[0]
+        elif isinstance(v, ast.BinOp) and isinstance(v.op, ast.MatMult):
+            Mx, X_ = v.left, v.right
+        else:
+            return None
+        if not (isinstance(X_, ast.Name) and X_.id == tgt):
+            return None
+        tr = False
+        while True:
+            if isinstance(Mx, ast.Attribute) and Mx.attr == "T":
+                Mx, tr = Mx.value, not tr
+            elif isinstance(Mx, ast.Call) and call_name(Mx) == "transpose" and isinstance(Mx.func, ast.Attribute) and not Mx.args:
+                Mx, tr = Mx.func.value, not tr
+            else:
+                break
+        return (u(Mx), tr, sl) if isinstance(Mx, ast.Name) else None
+    n_frames = 0
+    blocks = []
+    for iff in ast.walk(fn):
+        if isinstance(iff, ast.If) and not any(iff is x for x in ast.walk(loop)):
+            blocks.append(iff.body)
+            if iff.orelse and not (len(iff.orelse) == 1 and isinstance(iff.orelse[0], ast.If)):
+                blocks.append(iff.orelse)
+    for blk in blocks:
+        tr_c = [(st, frame_of(st.value, st.targets[0].id)) for st in blk if isinstance(st, ast.Assign) and isinstance(st.targets[0], ast.Name) and st.targets[0].id in CA]
+        tr_f = [(st, frame_of(st.value, st.targets[0].id)) for st in blk if isinstance(st, ast.Assign) and isinstance(st.targets[0], ast.Name) and st.targets[0].id in FA]
+        if not tr_c and not tr_f:
+            continue
+        if len(tr_c) > 1 or len(tr_f) > 1 or any(fr is None for _s, fr in tr_c + tr_f):
+            raise und("a re-assignment of the coarse nodes / fine centres is not a recognised change of frame")
+        n_frames += 1
+        if not tr_c or not tr_f:
+            st0 = (tr_c or tr_f)[0][0]
+            chk(False, st0, f"`{u(st0)[:70]}` moves one of the two point sets to a local frame, the other one stays in the global frame: the point-in-cell "
+                f"test then compares coordinates of different frames", f"frame arm {n_frames}: both point sets are transformed")
+            continue
+        (sc, fc), (sf, ff) = tr_c[0], tr_f[0]
+        chk(fc == ff, sf,
+            f"the coarse nodes are mapped with {fc[0]}{'.T' if fc[1] else ''}[{fc[2]}] but the fine cell centres with {ff[0]}{'.T' if ff[1] else ''}[{ff[2]}]: "
+            f"the point-in-cell test compares coordinates of different frames (identical only when the map is symmetric, e.g. the identity for a grid already "
+            f"in its local plane)", f"frame arm {n_frames}: coarse nodes and fine centres use the same map", )
     # loop runs over the coarse cells
     it_src = _resolve(fn, loop.iter)
     if not (isinstance(it_src, ast.Call) and call_name(it_src) == "zip" and len(it_src.args) == 2
@@ -921,6 +1133,7 @@ def rule_structured_refinement(ctx: Ctx, mod) -> None:
 def run(ctx: Ctx) -> None:
     rmod = ctx.repo.module(REF)
     emod = ctx.repo.module(EXT)
+    MODS[rmod.rel], MODS[emod.rel] = rmod, emod
     guarded(ctx, rule_refine_triangle, rmod)
     guarded(ctx, rule_extrusion, emod)
     guarded(ctx, rule_convex, rmod)
@@ -932,6 +1145,16 @@ def _m(name, old, new, rule, file=REF, control=False, count=1):
 
 
 MUTANTS = [
+    # independently seeded changes (campaign of the coordinator)
+    _m("seed-refine1d-end-arm-looks-up-start-node", "            loc_new_ind.append(old_2_new_nodes[end])\n", "            loc_new_ind.append(old_2_new_nodes[start])\n", "R3"),
+    _m("seed-coarse-fine-centres-rotated-with-transpose", "        cells_ref = np.dot(R, cells_ref)[:2, :]", "        cells_ref = np.dot(R.T, cells_ref)[:2, :]", "R4"),
+    _m("seed-ext1d-node-layers-counted-in-cells", "fn_this = k * nn_old + np.vstack((fn_old, nn_old + fn_old))", "fn_this = k * nc_old + np.vstack((fn_old, nn_old + fn_old))",
+       "R2", file=EXT),
+    _m("coarse-fine-only-centres-rotated", "        nodes = np.dot(R, nodes)[:2, :]\n", "", "R4"),
+    _m("coarse-fine-count-list-style-wrong-size", "indptr = np.append(indptr, indptr[-1] + in_poly_ids.size)", "indptr = np.append(indptr, indptr[-1] + test_cells_ptr.size)", "R4"),
+    _m("refine1d-start-arm-registers-end-node", "            old_2_new_nodes[start] = node_counter\n", "            old_2_new_nodes[end] = node_counter\n", "R3"),
+    _m("ext2d-vertical-signs-from-constants", "cf_data_vertical = np.hstack((cf_data_vertical, cf_data_2d))", "cf_data_vertical = np.hstack((cf_data_vertical, np.ones(cf_rows_2d.size)))",
+       "R2", file=EXT),
     # reverted forms of the applied fixes
     _m("revert-fix-7d04e5f0c-hits-not-reordered-by-cell", "        equal = equal[np.argsort(equal[:, 1])]\n", "", "R1", control=True),
     _m("revert-fix-35a12ad03-parent-tile", "    parent = np.repeat(np.arange(g.num_cells), g.dim + 2)", "    parent = np.tile(np.arange(g.num_cells), g.dim + 2)", "R1", control=True),
